@@ -7,7 +7,7 @@ Decided clauses (necessary conditions, all read off the code of every __eq__/__h
   EQ-C  __hash__ reads only attributes __eq__ compares; a class with __hash__ has an __eq__
   EQ-D  __hash__ is total: no constructor-nullable attribute is iterated / dereferenced without
         a dominating None test, no element of the hashed tuple has an unhashable declared type
-  EQ-E  id sets are not turned into sequences (list()/tuple()) before being compared
+  EQ-E  id sets — and the views of a mapping — are not turned into sequences (list()/tuple()) before being compared
   EQ-I  ordered sequences of objects are not reduced to sets (set()/frozenset()/sorted()) before being compared
   EQ-J  an attribute compared in rounded / formatted form by __eq__ is rounded for __hash__ as well
 """
